@@ -143,6 +143,34 @@ def rho_cases(EoN, rng, stats):
                 if got != 'EoNError':
                     bad.append(('%s/rho+initial_infecteds' % name, '%s(rho=%r, initial_infecteds=%s) %s instead of raising EoNError' % (name, rho, 'single node' if not isinstance(i0, list) else 'empty list' if not i0 else 'list', got),
                                 {'sim': name, 'graph': gc.to_json(), 'rho': rho, 'i0': repr(i0)}))
+        # rho together with initial_recovereds (SIR simulators that take both): either rejected with EoNError, or the run starts
+        # from round(N*rho) infected nodes AND the requested recovered nodes: row 0 = (N-k-|R0|, k, |R0|), every row a census of N nodes
+        if takes_r and sir:
+            r0 = list(gc.order[:max(1, n // 3)])
+            for rho in (0.5, 0.25):
+                if int(round(n * rho)) + len(r0) > n: continue      # an inconsistent request is outside the property
+                for seed in range(6):
+                    try:
+                        pyrandom.seed(seed); np.random.seed(seed)
+                        fn = getattr(E, name)
+                        if name.startswith('fast_nonMarkov_SIR'): out = fn(gc.G, trans_time_fxn=lambda u, v: 0.75, rec_time_fxn=lambda u: 1.0, rho=rho, initial_recovereds=r0, tmax=3)
+                        elif name == 'discrete_SIR': out = fn(gc.G, args=(1.0,), rho=rho, initial_recovereds=r0, tmax=3)
+                        elif 'discrete' in name: out = fn(gc.G, 1.0, rho=rho, initial_recovereds=r0, tmax=3)
+                        else: out = fn(gc.G, 1.0, 1.0, rho=rho, initial_recovereds=r0, tmax=3)
+                    except Exception as e:
+                        stats['rho+r0_rejected'] = stats.get('rho+r0_rejected', 0) + 1
+                        if type(e).__name__ != 'EoNError':
+                            bad.append(('%s/rho+initial_recovereds/crash' % name, '%s(rho=%r, initial_recovereds=%d nodes) with random.seed(%d) raised %s: %s (neither EoNError nor a run that honours both requests)' % (name, rho, len(r0), seed, type(e).__name__, str(e)[:80]),
+                                        {'sim': name, 'graph': gc.to_json(), 'rho': rho, 'r0': repr(r0), 'seed': seed}))
+                        break
+                    rows = R.canon_arrays(out); k = int(round(n * rho))
+                    stats['rho+r0_runs'] = stats.get('rho+r0_runs', 0) + 1
+                    wrong = [(t, c) for t, c in rows if min(c) < 0 or sum(c) != n]
+                    if list(rows[0][1]) != [n - k - len(r0), k, len(r0)] or wrong:
+                        bad.append(('%s/rho+initial_recovereds' % name, '%s(rho=%r, initial_recovereds=%d of %d nodes) with random.seed(%d): row 0 is %r, requested (S,I,R) = %r%s' % (
+                                        name, rho, len(r0), n, seed, list(rows[0][1]), [n - k - len(r0), k, len(r0)], '; rows that are no census of %d nodes: %r' % (n, wrong[:3]) if wrong else ''),
+                                    {'sim': name, 'graph': gc.to_json(), 'rho': rho, 'r0': repr(r0), 'seed': seed}))
+                        break
     return bad
 
 
